@@ -70,6 +70,15 @@ func tuple(resT types.Type, vs ...Val) Val {
 }
 
 func init() {
+	// --- logrus: Panic* never returns; reaching it is a crash ------------------------------------
+	for _, n := range []string{"Panic", "Panicf", "Panicln", "Fatal", "Fatalf", "Fatalln"} {
+		name := "(github.com/sirupsen/logrus.FieldLogger)." + n
+		invokeModels[name] = func(fr *Frame, recv Val, args []Val, resT types.Type, st *State, reach string, pos token.Pos) Val {
+			fr.oblige("safety", "unreachable "+fr.c.eng.srcText(pos, "call"), reach, "false", pos)
+			fr.c.smt.assume(not(reach), "logger.Panic/Fatal does not return")
+			return fr.havocVal(resT, "panic")
+		}
+	}
 	// --- math ---------------------------------------------------------------------------------
 	externalModels["math.IsNaN"] = func(fr *Frame, callee *ssa.Function, args []Val, resT types.Type, st *State, reach string, pos token.Pos) Val {
 		c := fr.c
